@@ -142,6 +142,14 @@ type model struct {
 	saves    int            // operations that had to rewrite the file
 }
 
+func (m *model) clone() *model {
+	c := &model{origMode: m.origMode, saves: m.saves}
+	if m.doc != nil {
+		c.doc = deepCopy(m.doc).(map[string]any)
+	}
+	return c
+}
+
 func (m *model) auths() map[string]any {
 	if m.doc == nil {
 		return nil
